@@ -95,3 +95,20 @@ def check_spec(case, io, mode):
 
 def select_for_mode(case, mode, tier):
     return True
+
+
+# ------------------------------------------------------------------------------------------------------------------
+# worker warm-up: the owning harnesses are imported lazily by `meta.base` — inside the per-case alarm of checks/worker.py.
+# Importing them here happens before the alarm is armed: an alarm firing inside an import or a numba compilation leaves the
+# worker process broken for every following case (seen under heavy machine load).
+# ------------------------------------------------------------------------------------------------------------------
+import sys  # noqa: E402
+if sys.argv and sys.argv[0].endswith("worker.py"):
+    for _n in meta.available(BASES):
+        try:
+            _b = meta.base(_n)
+            _w = getattr(_b, "warm_up", None)
+            if _w:
+                _w()
+        except Exception:   # noqa
+            pass
